@@ -9,3 +9,6 @@ import TjdLemmas.C13Lemmas
 import TjdLemmas.QPLemmas
 import TjdLemmas.FWLemmas
 import TjdLemmas.PCLemmas
+import TjdLemmas.RobustLemmas
+import TjdLemmas.NashLemmas
+import TjdLemmas.ImpartialLemmas
